@@ -33,6 +33,9 @@ func isBodyClose(info *types.Info, n ast.Node) bool {
 	return false
 }
 
+// goInfo resolves an identifier to its object in whichever package it belongs to (set by NewCtx).
+var goInfo func(id *ast.Ident) types.Object
+
 // goLitReturning finds the go-literal in fd that sends on / closes the channel the function returns.
 func goLitsOf(fd *ast.FuncDecl) []*ast.FuncLit {
 	var out []*ast.FuncLit
@@ -40,6 +43,20 @@ func goLitsOf(fd *ast.FuncDecl) []*ast.FuncLit {
 		if g, ok := n.(*ast.GoStmt); ok {
 			if fl, ok := g.Call.Fun.(*ast.FuncLit); ok {
 				out = append(out, fl)
+			} else if declResolver != nil && goInfo != nil {
+				// go x.worker(args): the body of a declared function or method of the module
+				var fn *types.Func
+				switch f := g.Call.Fun.(type) {
+				case *ast.Ident:
+					fn, _ = goInfo(f).(*types.Func)
+				case *ast.SelectorExpr:
+					fn, _ = goInfo(f.Sel).(*types.Func)
+				}
+				if fn != nil {
+					if dfi := declResolver(fn.Origin()); dfi != nil && dfi.Decl.Body != nil {
+						out = append(out, &ast.FuncLit{Type: dfi.Decl.Type, Body: dfi.Decl.Body})
+					}
+				}
 			}
 		}
 		return true
